@@ -140,8 +140,8 @@ def command_for(payload):
         mask = bytes(x & 0xFF for x in cx.array("G.kdf_out", 32, first=False)).hex()
         return ["crypt", cx.seed_hex("old", first=False), mask]
     if unit.startswith("B.cmp."):
-        key = bytes(x & 0xFF for x in cx.array("key", 10, first=False))
-        elm = bytes(x & 0xFF for x in cx.array("elm", 8, first=False))
+        key = bytes(x & 0xFF for x in cx.array("key", 16, first=False))
+        elm = bytes(x & 0xFF for x in cx.array("elm", 16, first=False))
         key = key.split(b"\x00")[0]; elm = elm.split(b"\x00")[0]
         return ["cmp", unit[len("B.cmp."):], key.hex() or "00", elm.hex() or "00"]
     return None
